@@ -85,7 +85,7 @@ def universal_programs(rng, n):
 def run(res):
     vh, exe = P.base(res, PROP)
     devs = gen.read_devices(vh)
-    texts, meta = [], []
+    texts, meta, late_meta = [], [], []
     for text, _ in FORMS:
         texts.append(text + "\n")
     import re
@@ -94,6 +94,11 @@ def run(res):
             t = ".device %s\n%s\n" % (name, text)
             texts.append(t)
             meta.append((t, name, text, flags, set(opts)))
+            # the device is a property of the program, not of the lines after the directive: selected after the instruction
+            # (directly, or behind other code) the verdict is the same
+            for t3 in ("%s\n.device %s\n" % (text, name), "%s\n nop\n.org 0x20\n.device %s\n nop\n" % (text, name)):
+                texts.append(t3)
+                late_meta.append((t3, name, text, flags, set(opts)))
             # the same form with its first register written through a .def alias: the verdict must not depend on the spelling
             m = re.search(r"\br(\d+)\b", text)
             if m:
@@ -151,6 +156,13 @@ def run(res):
             P.fail(res, "builder::build_str", t, "a failed build: %s lacks %s" % (name, bad[0]), obs[t][0][:60], "gate-open-in-sequence")
         elif not bad and a["kind"] != "OK":
             P.fail(res, "builder::build_str", t, "assembles: every instruction exists on " + name, obs[t][0][:60], "gate-closed-in-sequence")
+    for t, name, text, flags, opts in late_meta:
+        a = progrun.parse_obs(obs[t][0])
+        if bool(flags & opts) and a["kind"] != "ERR":
+            P.fail(res, "builder::build_str", t, "a failed build: %s has %s (the device is selected after the instruction)" % (name, sorted(flags & opts)), obs[t][0][:60],
+                   "gate-open-device-late")
+        elif not (flags & opts) and a["kind"] != "OK":
+            P.fail(res, "builder::build_str", t, "assembles: the instruction exists on " + name, obs[t][0][:60], "gate-closed-device-late")
     ndis = 0
     for t, name, text, flags, opts in meta:
         a = progrun.parse_obs(obs[t][0])
